@@ -319,6 +319,12 @@ func (b *batch) Commit(ctx context.Context) error {
 		b.d.apply(w)
 	}
 	b.d.Log = append(b.d.Log, Write{Kind: "commit-end"})
-	b.ops = nil
+	// go-datastore's basic batch (behind MapDatastore, MutexWrap, the namespace
+	// wrapper) keeps its operations after Commit and applies them again when the
+	// same batch is committed a second time; nothing in the Batch contract says a
+	// committed batch is empty. Half of the runs get that behaviour.
+	if b.d.S == nil || !b.d.S.Buggify("batch-keeps-ops") {
+		b.ops = nil
+	}
 	return nil
 }
